@@ -16,16 +16,19 @@ import (
 // C13 — top-level mutation fields execute serially in document order.
 
 type C13Scn struct {
-	Query    string                 `json:"query"`
-	Keys     []string               `json:"keys"`         // top-level response keys in document order (known by construction)
-	Op       string                 `json:"op,omitempty"` // operation name to select (multi-operation documents)
-	Vars     map[string]interface{} `json:"vars,omitempty"`
-	Cancel   bool                   `json:"cancel,omitempty"` // some resolver cancels the request context`
-	Faults   map[string]string      `json:"faults,omitempty"`
-	AllThunk bool                   `json:"all_thunk,omitempty"`
-	Entry    string                 `json:"entry"`
-	Order    uint32                 `json:"order"`
-	Salt     uint64                 `json:"salt"`
+	Query  string                 `json:"query"`
+	Keys   []string               `json:"keys"`         // top-level response keys in document order (known by construction)
+	Op     string                 `json:"op,omitempty"` // operation name to select (multi-operation documents)
+	Vars   map[string]interface{} `json:"vars,omitempty"`
+	Cancel bool                   `json:"cancel,omitempty"` // some resolver cancels the request context`
+	// Alt is the same mutation with its top-level selections in reverse order; the
+	// cache entries serve it first (and, with a one-entry cache, evict with it)
+	Alt      string            `json:"alt,omitempty"`
+	Faults   map[string]string `json:"faults,omitempty"`
+	AllThunk bool              `json:"all_thunk,omitempty"`
+	Entry    string            `json:"entry"`
+	Order    uint32            `json:"order"`
+	Salt     uint64            `json:"salt"`
 }
 
 type c13 struct{}
@@ -48,6 +51,12 @@ var c13Subs = map[string][]string{
 // genMutation builds a mutation document whose top-level response-key order
 // is known by construction.
 func genMutation(r *RNG) (string, []string) {
+	q, keys, _ := genMutationAlt(r)
+	return q, keys
+}
+
+// genMutationAlt also returns the document with its top-level selections reversed.
+func genMutationAlt(r *RNG) (string, []string, string) {
 	n := 2 + r.Intn(5)
 	type top struct{ key, field, sel, place string }
 	var tops []top
@@ -108,7 +117,12 @@ func genMutation(r *RNG) (string, []string) {
 		}
 	}
 	body = append(body, later...)
+	rev := make([]string, len(body))
+	for i := range body {
+		rev[len(body)-1-i] = body[i]
+	}
 	all := strings.Join(body, " ")
+	allRev := strings.Join(rev, " ")
 	var decl []string
 	if strings.Contains(all, "$yes") {
 		decl = append(decl, "$yes:Boolean=true")
@@ -120,7 +134,7 @@ func genMutation(r *RNG) (string, []string) {
 	if len(decl) > 0 {
 		head += "(" + strings.Join(decl, ",") + ")"
 	}
-	return head + " { " + all + " } " + strings.Join(frags, " "), keys
+	return head + " { " + all + " } " + strings.Join(frags, " "), keys, head + " { " + allRev + " } " + strings.Join(frags, " ")
 }
 
 var c13Faults = []string{FThunk, FThunk, FThunk, FThunkErr, FThunkNil, FThunkPanic, FErr, FNil, FElemThunk, FElemThunk}
@@ -128,7 +142,7 @@ var c13Faults = []string{FThunk, FThunk, FThunk, FThunkErr, FThunkNil, FThunkPan
 func (p c13) Gen(seed uint64, enum int, tier string) json.RawMessage {
 	r := NewRNG(seed)
 	s := C13Scn{}
-	s.Query, s.Keys = genMutation(r)
+	s.Query, s.Keys, s.Alt = genMutationAlt(r)
 	if r.Chance(50) {
 		// supplied explicitly (otherwise the defaults apply); only declared ones
 		s.Vars = map[string]interface{}{}
@@ -148,6 +162,7 @@ func (p c13) Gen(seed uint64, enum int, tier string) json.RawMessage {
 		} else {
 			s.Query = strings.Replace(s.Query, "mutation {", "mutation M {", 1)
 		}
+		s.Alt = "" // the twin is only used with single-operation documents
 		others := []string{"query Q1 { x1 }", "subscription S1 { events { id } }", "query Q2 { a { id } }", "mutation M2 { s1(v:9) }"}
 		i, j := r.Intn(len(others)), r.Intn(len(others))
 		if r.Chance(50) {
@@ -239,8 +254,19 @@ func (c13) Run(t TestingT, scn json.RawMessage, tape *Tape) *Outcome {
 	ctx := WithReq(base, rc)
 	var res *graphql.Result
 	if sc.Entry == "cache" || sc.Entry == "cache-norm" {
-		cache := graphql.NewPlanCache(graphql.PlanCacheOptions{Normalize: sc.Entry == "cache-norm"})
-		// the second Get is a hit: the plan that executes is the cached one
+		opts := graphql.PlanCacheOptions{Normalize: sc.Entry == "cache-norm"}
+		if sc.Alt != "" && sc.Salt%2 == 0 {
+			opts.MaxEntries = 1
+		}
+		cache := graphql.NewPlanCache(opts)
+		if sc.Alt != "" {
+			// the reversed twin is cached first; with one entry the real document
+			// is then evicted by it once more
+			cache.Get(&w.Schema, sc.Alt, sc.Op)
+			cache.Get(&w.Schema, sc.Query, sc.Op)
+			cache.Get(&w.Schema, sc.Alt, sc.Op)
+		}
+		// the second Get is a hit (unless evicted): the plan that executes is the cached one
 		cache.Get(&w.Schema, sc.Query, sc.Op)
 		pr := cache.Get(&w.Schema, sc.Query, sc.Op)
 		if pr.Plan == nil {
